@@ -298,16 +298,20 @@ Definition recompute (resets : bool) (prev new : tree) : tree :=
 
 Fixpoint again {A} (k : nat) (f : A -> A) (x : A) : A := match k with 0 => x | S k' => again k' f (f x) end.
 
+(* obj() on an object that was already computed: __call__ runs compute() again (the tables become `new`: those of
+   the object's CURRENT root / exclusion set), unless __call__ were conditional (they would stay `old`) *)
+Definition call_again {A} (old new : A) : A := if call_runs_compute then new else old.
+
 (* the object after `calls` calls of compute() (calls >= 1) *)
 Definition bfs_calls (c : cfg) (g : raw) (root : Z) (calls : nat) : option tree :=
   match bfs_z c g root with
   | None => None
-  | Some t => Some (again (calls - 1) (fun acc => recompute (tree_resets (c_kind c)) acc t) t)
+  | Some t => Some (again (calls - 1) (fun acc => call_again acc (recompute (tree_resets (c_kind c)) acc t)) t)
   end.
 
 Definition forest_calls (k : kind) (polyline : bool) (g : raw) (calls : nat) : list tree :=
   let f := forest k polyline g in
-  again (calls - 1) (fun acc => if forest_resets k then f else acc ++ f) f.
+  again (calls - 1) (fun acc => call_again acc (if forest_resets k then f else acc ++ f)) f.
 
 Definition kruskal_z (i : kinput) (root : Z) : option ktree :=
   if edge_root_ok root (Z.of_nat (ki_n i)) then
@@ -322,7 +326,7 @@ Definition krecompute (resets : bool) (prev new : ktree) : ktree :=
 Definition kruskal_calls (i : kinput) (root : Z) (calls : nat) : option ktree :=
   match kruskal_z i root with
   | None => None
-  | Some t => Some (again (calls - 1) (fun acc => krecompute kr_resets acc t) t)
+  | Some t => Some (again (calls - 1) (fun acc => call_again acc (krecompute kr_resets acc t)) t)
   end.
 
 (* ------------------------------------------------------------------ an object built WITHOUT its optional arguments *)
